@@ -36,6 +36,8 @@ type TypeOpts struct {
 	Depth int
 	// Pointers: recursive shapes through pointers (analysis only: C12, C18)
 	Pointers bool
+	// PtrFields: pointer typed fields and an embedded pointer (Go generators only: C15)
+	PtrFields bool
 	// NoRoot: place the module outside any go/src/ directory (affects the Dart linker only)
 }
 
@@ -138,6 +140,9 @@ func NewTypeProg(seed int64, idx int, r *rand.Rand, opts TypeOpts) *Program {
 		g.makeUnions()
 	}
 	g.makeStructs()
+	if opts.SameNameInSub && opts.Unions {
+		g.makeSameNameStruct()
+	}
 	if opts.Recursive {
 		g.makeRecursive()
 	}
@@ -239,6 +244,47 @@ func (g *gen) makeSubs() {
 	}
 }
 
+// makeSameNameStruct declares, in the first sub-package, an exported struct with
+// the local name of a root union member (it is a member of nothing) and uses it
+// from a root struct next to the real member.
+func (g *gen) makeSameNameStruct() {
+	if len(g.p.Subs) == 0 || len(g.structs) == 0 {
+		return
+	}
+	var member *Decl
+	for _, d := range g.root.Decls {
+		nonPtr := false
+		for _, im := range d.Impls {
+			if !im.Ptr {
+				nonPtr = true
+			}
+		}
+		if d.Kind == DStruct && nonPtr && d.File == "models.go" && d.Name[0] >= 'A' && d.Name[0] <= 'Z' {
+			member = d
+			break
+		}
+	}
+	if member == nil {
+		return
+	}
+	sub := g.p.Subs[0]
+	for _, d := range sub.Decls {
+		if d.Name == member.Name {
+			return
+		}
+	}
+	twin := &Decl{Name: member.Name, Pkg: sub, File: "types.go", Kind: DStruct, Fields: []*Field{
+		{Name: "Ref", Type: Basic("int")},
+		{Name: "Note", Type: Basic("string")},
+	}}
+	sub.Decls = append(sub.Decls, twin)
+	host := g.structs[len(g.structs)-1]
+	host.Fields = append(host.Fields,
+		&Field{Name: g.fresh("Legacy" + member.Name), Type: Ref(twin)},
+		&Field{Name: g.fresh("Legacies" + member.Name), Type: Slice(Ref(twin))})
+	g.p.Feature("same-struct-name-as-union-member-in-sub-package")
+}
+
 // ---------------------------------------------------------------------------
 // enums
 
@@ -247,11 +293,23 @@ func (g *gen) enumDecl(stem, under string, forcePlainIota bool) *Decl {
 	name := g.fresh(stem)
 	d := &Decl{Name: name, Kind: DEnum, Under: Basic(under)}
 	n := 2 + g.r.Intn(4)
+	snakeNames := g.pr(0.1) // Color_Red naming
 	mk := func(i int, exported bool) string {
 		w := memberWords[(i*7+g.r.Intn(3))%len(memberWords)]
 		base := name + w
+		if snakeNames {
+			base = name + "_" + w
+			g.p.Feature("enum:constant-names-with-underscore")
+		} else if exported && g.pr(0.05) {
+			base += "_"
+			g.p.Feature("enum:constant-name-trailing-underscore")
+		}
 		if !exported {
 			base = strings.ToLower(name[:1]) + name[1:] + w
+			if g.pr(0.3) {
+				base = "_" + base // legal unexported identifier, not the blank one
+				g.p.Feature("enum:underscore-prefixed-constant")
+			}
 		}
 		return g.fresh(base)
 	}
@@ -422,6 +480,22 @@ func (g *gen) makeEnums() {
 		if under != "bool" && under != "float64" {
 			g.keyables = append(g.keyables, d)
 		}
+	}
+	// an enum whose only constant is unexported (underscore prefixed half of the time)
+	if g.pr(0.3) {
+		d := g.add(&Decl{Name: g.fresh("Mode" + g.pick(enumStems)), Kind: DEnum, Under: Basic(g.pick([]string{"int", "string"}))})
+		cname := "default" + d.Name
+		if g.pr(0.5) {
+			cname = "_" + cname
+		}
+		v := "1"
+		if d.Under.Basic == "string" {
+			v = `"dflt"`
+		}
+		d.Blocks = []*ConstBlock{{Specs: []*Const{{Names: []string{g.fresh(cname)}, Type: true, Value: v, Comment: "the only one"}}}}
+		d.Tag("single-unexported-constant")
+		g.p.Feature("enum:single-unexported-constant")
+		g.enums = append(g.enums, d)
 	}
 	// a named type whose only constant is opted out: NOT an enum
 	if g.pr(0.5) {
@@ -934,6 +1008,21 @@ func (g *gen) makeStructs() {
 			g.p.Feature("map-keyed-by-enum-with-duplicate-values")
 			break
 		}
+	}
+	if g.opts.PtrFields && len(g.structs) > 0 {
+		// pointer fields (accepted by the Go generators only): to a leaf struct, to a basic,
+		// inside a slice, and a struct EMBEDDING a pointer to a struct (a plain field named
+		// after the type for the analysis; never flattened)
+		leaf := g.add(&Decl{Name: g.fresh("Audit"), Kind: DStruct, Fields: []*Field{{Name: "CreatedBy", Type: Basic("string")}, {Name: "Rev", Type: Basic("int")}}})
+		host := g.structs[len(g.structs)-1]
+		host.Fields = append(host.Fields,
+			&Field{Name: g.fresh("Opt" + leaf.Name), Type: Pointer(Ref(leaf))},
+			&Field{Name: g.fresh("OptNum"), Type: Pointer(Basic("int"))},
+			&Field{Name: g.fresh("Opts" + leaf.Name), Type: Slice(Pointer(Ref(leaf)))})
+		doc := g.add(&Decl{Name: g.fresh("Doc" + g.pick(typeStems)), Kind: DStruct, Fields: []*Field{{Embedded: true, Type: Pointer(Ref(leaf))}, {Name: "Title", Type: Basic("string")}}})
+		g.structs = append(g.structs, leaf, doc)
+		g.p.Feature("pointer-fields")
+		g.p.Feature("embedded-pointer-to-struct")
 	}
 	// an embedded unexported struct type with exported fields
 	if g.opts.Embedded && g.pr(0.4) {
